@@ -64,16 +64,34 @@ def generate(seed, tier="quick"):
     driver = "plugin" if sub(seed, "driver").random() < 0.3 else "inline"
     # the project hides updates unless they are asked for (skip-snapshot-updates-for-now): every session of these histories names its categories
     skip_updates = driver == "plugin" and sub(seed, "skip-updates").random() < 0.35
+    irng = sub(seed, "imports")
+    if driver == "plugin" and irng.random() < 0.35:
+        # one file needs two new imports (external, HasRepr), brought in by changes of different categories
+        from . import c13
+
+        f = sorted(prog["files"], key=lambda f: f["name"])[0]
+        f["sites"]["xa"] = {"op": "eq", "place": "direct", "arg": None, "prev": None}
+        f["sites"]["nr"] = {"op": "eq", "place": "direct", "arg": irng.choice(["0", "[1]", None]), "prev": None}
+        t = irng.choice(f["tests"])
+        t["events"].append({"t": "cmp", "eid": "exa", "site": "xa", "vals": [c13.wrap(irng, c13.ext_value(irng))], "style": "rec"})
+        t["events"].append({"t": "cmp", "eid": "enr", "site": "nr", "vals": [["norepr", irng.randint(1, 5)]], "style": "rec"})
     W.sprinkle_uni(prog, sub(seed, "uni"), 0.1)
     return {"program": prog, "driver": driver, "asserts": asserts, "skip_updates": skip_updates, "fmt": draw_fmt(sub(seed, "fmt")), "max_orders": 6 if tier == "quick" else 24}
 
 
-def trees(files):
+def trees(files, sort_inserted_imports=False):
     out = {}
     for k, v in files.items():
         if k.startswith("test_"):
             try:
-                out[k] = ast.dump(ast.parse(v.decode("utf-8") if isinstance(v, bytes) else v))
+                tree = ast.parse(v.decode("utf-8") if isinstance(v, bytes) else v)
+                if sort_inserted_imports:
+                    own = [i for i, n in enumerate(tree.body) if isinstance(n, ast.ImportFrom) and n.module == "inline_snapshot"
+                           and {a.name for a in n.names} <= {"external", "HasRepr"}]
+                    nodes = sorted((tree.body[i] for i in own), key=lambda n: n.names[0].name)
+                    for i, n in zip(own, nodes):
+                        tree.body[i] = n
+                out[k] = ast.dump(tree)
             except SyntaxError as ex:
                 out[k] = f"SYNTAX-ERROR {ex}"
     return out
@@ -146,9 +164,17 @@ def execute(case, ctx):
         if got != want:
             fn = [k for k in want if got.get(k) != want[k]][0]
             pair = "+".join(sorted(set(order)))
-            out["violations"].append({"clause": "confluence", "sig": f"order-matters:{'+'.join(pend)}",
+            sig = f"order-matters:{'+'.join(pend)}"
+            if trees(cur, sort_inserted_imports=True) == trees(comb, sort_inserted_imports=True):
+                # narrow signature of the listed finding: the programs differ in nothing but the order of the import lines the tool added
+                sig = "inserted-imports-in-session-order"
+            if sig == "inserted-imports-in-session-order" and any(v["sig"] == sig for v in out["violations"]):
+                continue
+            out["violations"].append({"clause": "confluence", "sig": sig,
                                       "detail": f"driver={driver} fmt={fmt_tag(fmt)} pending={pend}: approving {' then '.join(order)} gives another program than approving {pend} together\n"
                                                 f"--- before\n{s0[fn].decode()[:800]}\n--- one at a time ({'>'.join(order)})\n{cur[fn].decode('utf-8', 'replace')[:800]}\n--- together\n{comb[fn].decode('utf-8', 'replace')[:800]}"})
+            if sig == "inserted-imports-in-session-order":
+                continue  # the listed finding must not hide another difference in a later order
             break
     out["sample"] = {"pending": pend, "orders": len(perms), "driver": driver, "file": files[prog["files"][0]["name"]][:500]}
     return out
